@@ -23,7 +23,7 @@ fn run(case: &ConvCase) -> (Expected, Observation) {
 /// (EINTR): whoever retries, as write_all / read_exact / Read::bytes do, must notice nothing
 fn run_intr(case: &ConvCase) -> (Expected, Observation) {
     let k = render(&case.conv).bytes.len() + case.conv.reqs.len() * 7;
-    (expect(case), run_mem(case, &MemOpts { read_intr: [2, 3, 5, 2][k % 4], write_intr: [0, 2, 3, 5][(k / 4) % 4], ..Default::default() }))
+    (expect(case), run_mem(case, &MemOpts { read_intr: [2, 3, 5, 2][k % 4], write_intr: [0, 2, 3, 5][(k / 4) % 4], write_max: [0, 1, 13, 0, 700][(k / 16) % 5], ..Default::default() }))
 }
 
 // ------------------------------------------------------------------------------------------
@@ -462,7 +462,7 @@ pub fn parts<'a>(cli: &'a Cli) -> Option<(Vec<Part<'a>>, &'static str, Vec<&'sta
                 let (exp, obs) = run_intr(c);
                 c03_oracle(c, &exp, &obs, "00000000")
             }));
-            Some((parts, "part mem: the C03 cases over the in-memory connection (one client segment per read); part mem-transient-errors: the same with every 2nd / 3rd / 5th read and write of the transport reporting Interrupted (the handler programs retry as read_exact does)", a))
+            Some((parts, "part mem: the C03 cases over the in-memory connection (one client segment per read); part mem-transient-errors: the same with every 2nd / 3rd / 5th read and write of the transport reporting Interrupted (the handler programs retry as read_exact does) and writes taking at most 1 / 13 / 700 bytes", a))
         }
         "C06" => {
             parts.push(make_part("mem", "CONV/mem", cli.cases(20_000, 1_000_000), || gen::c06_strategy(mem(), false), |_| (), |_, c| {
@@ -489,7 +489,7 @@ pub fn parts<'a>(cli: &'a Cli) -> Option<(Vec<Part<'a>>, &'static str, Vec<&'sta
                 let (exp, obs) = run_intr(c);
                 c09_oracle(c, &exp, &obs, "00000000")
             }));
-            Some((parts, "part mem: the C09 cases over the in-memory connection; a server that waits for input while the client waits for the responses is an exact stall; part mem-transient-errors: the same with every 2nd / 3rd / 5th read and write of the transport reporting Interrupted", a))
+            Some((parts, "part mem: the C09 cases over the in-memory connection; a server that waits for input while the client waits for the responses is an exact stall; part mem-transient-errors: the same with every 2nd / 3rd / 5th read and write of the transport reporting Interrupted and writes taking at most 1 / 13 / 700 bytes", a))
         }
         "C10" => {
             parts.push(make_part("mem", "CONV/mem", cli.cases(20_000, 1_000_000), || gen::c10_strategy(mem()), |_| (), |_, c| {
